@@ -87,35 +87,35 @@ MODEL_NOTE = ("CVRPEnv modelled per instance over integer ticks (Rl4co/Env/Cvrp.
               "arithmetic and float32 rounding are outside the model (exact-stream instances make them exact)")
 
 register(Unit("C01", "cvrp", lambda ctx: envcorr.check_feasibility(ctx, AD),
-              lean_modules=["Rl4co.Props.C01.Cvrp"],
+              drivers=["drv_cvrp"], lean_modules=["Rl4co.Props.C01.Cvrp"],
               theorems=[Theorem("Rl4co.Cvrp.feasible_of_run", "proved",
                                 "every mask-confined finished CVRP episode is Spec-feasible (any n, any demands ≥ 0)")],
               assumptions=[MODEL_NOTE]))
 register(Unit("C02", "cvrp", lambda ctx: envcorr.check_termination(ctx, AD),
-              lean_modules=["Rl4co.Props.C02.Cvrp"],
+              drivers=["drv_cvrp"], lean_modules=["Rl4co.Props.C02.Cvrp"],
               theorems=[Theorem("Rl4co.Cvrp.mask_nonempty", "proved", "every state offers an action"),
                         Theorem("Rl4co.Cvrp.done_stable", "proved", "done is absorbing under admitted steps"),
                         Theorem("Rl4co.Cvrp.steps_le", "proved", "an unfinished mask-confined run has at most 2n+1 steps")],
               assumptions=[MODEL_NOTE]))
 register(Unit("C03", "cvrp", lambda ctx: envcorr.check_reward(ctx, AD),
-              lean_modules=["Rl4co.Props.C03.Cvrp"],
+              drivers=["drv_cvrp"], lean_modules=["Rl4co.Props.C03.Cvrp"],
               theorems=[Theorem("Rl4co.Cvrp.reward_eq_objective", "proved",
                                 "reward = −(sum of closed route lengths) for every action list when D 0 0 = 0")],
               assumptions=[MODEL_NOTE]))
 register(Unit("C04", "cvrp", lambda ctx: envcorr.check_batch_independence(ctx, AD),
-              lean_modules=["Rl4co.Props.C04.Cvrp"],
+              drivers=["drv_cvrp"], lean_modules=["Rl4co.Props.C04.Cvrp"],
               theorems=[Theorem("Rl4co.Cvrp.pad_noop", "proved",
                                 "a depot padding step after done changes neither done, mask nor reward")],
               assumptions=[MODEL_NOTE, "the batched code is compared row-wise against the per-instance model"]))
 if os.path.exists(os.path.join(LEAN_DIR, "Rl4co/Props/C05/Cvrp.lean")):
   register(Unit("C05", "cvrp", lambda ctx: envcorr.check_completeness(ctx, AD),
-              lean_modules=["Rl4co.Props.C05.Cvrp"],
+              drivers=["drv_cvrp"], lean_modules=["Rl4co.Props.C05.Cvrp"],
               theorems=[Theorem("Rl4co.Cvrp.run_of_feasible", "proved",
                                 "every canonical Spec-feasible solution is a mask-confined finished run")],
               assumptions=[MODEL_NOTE]))
 if os.path.exists(os.path.join(LEAN_DIR, "Rl4co/Props/C06/Cvrp.lean")):
   register(Unit("C06", "cvrp", lambda ctx: envcorr.check_checker(ctx, AD),
-              lean_modules=["Rl4co.Props.C06.Cvrp"],
+              drivers=["drv_cvrp"], lean_modules=["Rl4co.Props.C06.Cvrp"],
               theorems=[Theorem("Rl4co.Cvrp.check_complete", "proved", "Spec-feasible ⇒ checker accepts"),
                         Theorem("Rl4co.Cvrp.check_sound", "proved", "checker accepts ⇒ feasible within tolerance")],
               assumptions=[MODEL_NOTE]))
